@@ -281,7 +281,7 @@ def check(run):
     HUGE = b"\x07" * (12 * 1024 * 1024 + 1)
     for v in rich[:1]:
         for k, d in enumerate(string_fields(v, [HUGE])):
-            if k >= (10 if quick else 40):
+            if k >= (10 if quick else 16):
                 break
             inputs.append(("huge-string", d)); fb_tools.append(d)
     # valid files that are large along one dimension: index lists of more than 65536 entries, byte strings of 12 MiB
